@@ -163,6 +163,7 @@ const (
 	tyAddress  = "github.com/ethereum/go-ethereum/common.Address"
 	tyHash     = "github.com/ethereum/go-ethereum/common.Hash"
 	tyAny      = "github.com/cosmos/cosmos-sdk/codec/types.Any"
+	tyValidator = "github.com/cosmos/cosmos-sdk/x/staking/types.Validator" // modelled by its operator address
 )
 
 func isByte(t types.Type) bool {
@@ -204,7 +205,14 @@ type Engine struct {
 	implCache map[string][]types.Type
 	objElem   map[int]types.Type
 	nIter     int
+	elemAlias map[int]elemAliasT // objects reflected out of pointer-element arrays: writes go back to the array
 	inProgress map[string]bool
+}
+
+type elemAliasT struct {
+	Arr  int
+	Idx  T
+	Elem types.Type
 }
 
 type dtField struct {
@@ -220,7 +228,7 @@ type dynCon struct {
 }
 
 func NewEngine(prog *ssa.Program) *Engine {
-	return &Engine{prog: prog, declSet: map[string]bool{}, dtSet: map[string]string{}, dtFields: map[string][]dtField{}, dynSet: map[string]int{}, assumpt: map[string]bool{}, axiomSet: map[string]bool{}, implCache: map[string][]types.Type{}, objElem: map[int]types.Type{}, inProgress: map[string]bool{}}
+	return &Engine{prog: prog, declSet: map[string]bool{}, dtSet: map[string]string{}, dtFields: map[string][]dtField{}, dynSet: map[string]int{}, assumpt: map[string]bool{}, axiomSet: map[string]bool{}, implCache: map[string][]types.Type{}, objElem: map[int]types.Type{}, elemAlias: map[int]elemAliasT{}, inProgress: map[string]bool{}}
 }
 
 func (e *Engine) note(a string) { e.assumpt[a] = true }
@@ -276,7 +284,7 @@ func (e *Engine) sortOf(t types.Type) string {
 	switch ts {
 	case tySdkInt, tySdkUint, tySdkDec, tyTime, tyDuration:
 		return SInt
-	case tyAddress, tyHash:
+	case tyAddress, tyHash, tyValidator:
 		return SString
 	}
 	if p, ok := t.(*types.Pointer); ok {
@@ -573,7 +581,7 @@ func (e *Engine) baseArray(es string) T {
 func (e *Engine) reflect(st *State, x T, t types.Type) Val {
 	ts := typeString(t)
 	switch ts {
-	case tySdkInt, tySdkUint, tySdkDec, tyTime, tyDuration, tyAddress, tyHash:
+	case tySdkInt, tySdkUint, tySdkDec, tyTime, tyDuration, tyAddress, tyHash, tyValidator:
 		return x
 	}
 	if isBytesLike(t) {
@@ -715,7 +723,7 @@ func (e *Engine) modelled(t types.Type) (ok bool) {
 
 func tsIsSpecial(ts string) bool {
 	switch ts {
-	case tySdkInt, tySdkUint, tySdkDec, tyTime, tyDuration, tyAddress, tyHash, tyAny, tyBigInt:
+	case tySdkInt, tySdkUint, tySdkDec, tyTime, tyDuration, tyAddress, tyHash, tyAny, tyBigInt, tyValidator:
 		return true
 	}
 	return false
